@@ -599,6 +599,18 @@ class PathEval(AutoEvaluator):
             self.seq += 1
             self.cell_seq.append(self.seq)
             self.cells.append((nm, ix, v, st))
+            k = const_of(ix)
+            if isinstance(cur, tuple) and not aug and k is not None and k.denominator == 1 and -len(cur) <= int(k) < len(cur):
+                lst = list(cur)                 # a local list whose items are known: the item is replaced
+                lst[int(k)] = v
+                self.env[nm] = tuple(lst)
+                return
+            if isinstance(cur, DictValue) and not aug and isinstance(target.slice, ast.Constant) and isinstance(target.slice.value, (str, int)):
+                self.env[nm] = DictValue({**cur.d, target.slice.value: v})
+                return
+            if isinstance(cur, DictValue):
+                self.env[nm] = Unknown(f"store into the table {nm} under a key that is not a literal")
+                return
             if is_unknown(cur) or is_unknown(ix) or is_unknown(v) or isinstance(cur, tuple):
                 self.env[nm] = Unknown(f"store into {nm}[...] of a value that is not lowered")
             else:
@@ -629,6 +641,11 @@ class PathEval(AutoEvaluator):
             return self._comp(node)
         if isinstance(node, ast.Constant) and isinstance(node.value, bool):
             return F.sym(repr(node.value))
+        if isinstance(node, ast.Dict) and not node.keys:
+            return DictValue({})
+        if isinstance(node, ast.BinOp) and isinstance(node.op, ast.Mult) and isinstance(node.left, (ast.List, ast.Tuple)) and len(node.left.elts) == 1 \
+                and isinstance(node.right, ast.Constant) and isinstance(node.right.value, int) and 0 <= node.right.value <= MAX_UNROLL:
+            return (self.ev(node.left.elts[0]),) * node.right.value            # [x] * k: a list of k known items
         # the text of one value: f"{x}", "%d" % x, "%s" % x  are str(x) (x is an integer wherever the rules look at such a text)
         if isinstance(node, ast.JoinedStr) and len(node.values) == 1 and isinstance(node.values[0], ast.FormattedValue) \
                 and node.values[0].format_spec is None and node.values[0].conversion in (-1, 115):
@@ -643,6 +660,15 @@ class PathEval(AutoEvaluator):
     def _comp(self, node):
         saved, bv = dict(self.env), self._bv
         try:
+            if len(node.generators) == 1 and not node.generators[0].ifs and not isinstance(node, ast.SetComp):
+                # a comprehension over a sequence whose items are known is the list of the element values
+                items = self._items(node.generators[0].iter, self.ev(node.generators[0].iter))
+                if items is not None and len(items) <= MAX_UNROLL:
+                    out = []
+                    for x in items:
+                        self._assign(node.generators[0].target, x, node)
+                        out.append(self.ev(node.elt))
+                    return tuple(out)
             gens = []
             for g in node.generators:
                 it = self._ev(g.iter)
